@@ -172,6 +172,27 @@ def constructor_order(g):
     return of_class(0)
 
 
+def constructor_aliases(g):
+    """pairs of grid attributes that a constructor binds to ONE array object (chained assignment `self.a = self.b = f(...)`, or
+    `self.a = self.b`), in any class of the grid's MRO"""
+    import ast
+    out = []
+    for c in g.mro:
+        init = next((f for f in c.body if isinstance(f, ast.FunctionDef) and f.name == "__init__"), None)
+        if init is None:
+            continue
+        for st in ast.walk(init):
+            if not isinstance(st, ast.Assign):
+                continue
+            tg = [t.attr for t in st.targets if isinstance(t, ast.Attribute) and isinstance(t.value, ast.Name) and t.value.id == "self"]
+            if len(tg) >= 2:
+                out += [(tg[i], tg[j], st.lineno, c.name) for i in range(len(tg)) for j in range(i + 1, len(tg))]
+            v = st.value
+            if len(tg) == 1 and isinstance(v, ast.Attribute) and isinstance(v.value, ast.Name) and v.value.id == "self":
+                out.append((tg[0], v.attr, st.lineno, c.name))
+    return out
+
+
 def stale_reads(repo, relfile, cls, dim):
     """def-use rule: a buffer that any compute_*/transfer method of the grid (re)computes from the body state must be written in
     an evaluation before that evaluation reads it.  Returns (derived buffers, {evaluation: [stale read descriptions]})."""
